@@ -247,6 +247,12 @@ pub fn run_job_ext(mode: &str, job: &Value) -> Option<Value> {
     Some(match mode {
         "roundtrip" => roundtrip_job(job),
         "flagcmp" => flagcmp_job(job),
+        "postcheck" => crate::post::postcheck_job(job),
+        "pipecmp" => crate::post::pipeline_compare(
+            job.get("base").and_then(|s| s.as_str()).unwrap_or(""),
+            job.get("processed").and_then(|s| s.as_str()).unwrap_or(""),
+            job.get("merge").and_then(|s| s.as_bool()).unwrap_or(false),
+        ),
         _ => return None,
     })
 }
